@@ -11,6 +11,7 @@ pub mod nd;
 #[cfg(not(feature = "no_simd"))]
 #[path = "../common/models.rs"]
 pub mod models;
+#[path = "../common/view.rs"]
 pub mod view;
 #[macro_use]
 pub mod ops;
